@@ -65,6 +65,28 @@ def run_compute(shard, mon, S, table):
                 continue
             produced += 1
             check_valid(mon, S, o.value, cc, table, w)
+        # bank codes of every width up to bank + branch + check field (+2), with and without a separate branch code:
+        # the joined forms some registries use for their keys included - a nationally valid IBAN or a library error
+        from vf.ref import lookup  # noqa: PLC0415
+
+        bw = (pos["bank_code"][1] - pos["bank_code"][0]) if "bank_code" in pos else 0
+        brw = (pos["branch_code"][1] - pos["branch_code"][0]) if "branch_code" in pos else 0
+        ckw = (pos["national_checksum_digits"][1] - pos["national_checksum_digits"][0]) if "national_checksum_digits" in pos else 0
+        wide = ["".join(rng.choice(R.DIGITS) for _ in range(wd)) for wd in range(1, bw + brw + ckw + 3) for _ in range(2)]
+        lk = [k_ for c_, k_ in sorted(lookup.by_key()) if c_ == cc]
+        for k_ in rng.sample(lk, min(6, len(lk))):
+            wide += [k_, k_[:-1] + str((int(k_[-1]) + 1) % 10) if k_[-1:].isdigit() else k_]
+        for bank in wide:
+            for branch in ("", val("branch_code")):
+                o = observe(S.IBAN.generate, cc, bank_code=bank, account_code=val("account_code"), branch_code=branch)
+                mon.ev()
+                mon.tally("bank_code_width_sweep")
+                w = {"country": cc, "bank_code": bank, "branch_code": branch, "via": "generate (bank code width sweep)"}
+                if o.ok:
+                    produced += 1
+                    check_valid(mon, S, o.value, cc, table, w)
+                elif not judge.is_lib_exc(o.exc):
+                    mon.viol(f"escape:generate:{o.exc_name}", w, "library error", o.brief())
         for k in range(n // 3):
             # draws with pinned bank and account: a valid (also nationally) IBAN carrying the pins, or the overflow error
             pb, pa = val("bank_code"), val("account_code")
@@ -191,6 +213,13 @@ def run_rebuild(shard, mon, S, table):
                 for a in alts:
                     if a != cur:
                         cands.append(R.make_iban(cc, b[:s_] + a + b[e_:]))
+        # fields that begin or end with a vocabulary word (an account number may be any text its class allows)
+        for tb in gen.token_bbans(spec, rng, fields=pos):
+            if cc in N.LENGTHS:
+                tb = N.force_valid(cc, tb) or tb
+            if R.matches_spec(spec["bban_spec"], tb):
+                cands.append(R.make_iban(cc, tb))
+                mon.tally("rebuild_candidates_with_vocabulary_words")
         for k in range(max(4, n // 4)):
             o = observe(S.IBAN.random, cc, random=Random(f"{env.seed()}/C09r/{cc}/{k}"))
             if o.ok:
